@@ -490,7 +490,13 @@ Section Termination.
   Qed.
 End Termination.
 
+Lemma filter_len_le {A} (f : A -> bool) l : length (filter f l) <= length l.
+Proof. induction l as [|x r IH]; simpl; [lia|]. destruct (f x); simpl; lia. Qed.
+
 (* closed statement with the budget of the model *)
+Lemma fuel_of_bigM K D R : fuel_of K D R = S (S K * bigM D R).
+Proof. reflexivity. Qed.
+
 Lemma hash_terminates_lemma E rank R t fl :
   wf_env E rank (keys_ty t ++ env_keys E) (Nat.max (depth t) (env_depth E)) R ->
   wf_ty E rank (keys_ty t ++ env_keys E) (Nat.max (depth t) (env_depth E)) R t ->
@@ -499,14 +505,835 @@ Proof.
   intros HE Ht. unfold Hash.
   destruct (hash_total E rank _ _ R fl HE (fuel_bound E t R) t [] Ht) as (h & s' & -> & _).
   - pose proof (mu_lt_bigM E rank _ _ R t Ht) as Hmu.
-    unfold fuel_bound, fuel_of. fold (bigM (Nat.max (depth t) (env_depth E)) R).
-    unfold unseen. simpl.
-    assert (Hf : length (filter (fun k => negb (is_seen k [])) (keys_ty t ++ env_keys E)) <= length (keys_ty t ++ env_keys E))
-      by apply filter_length_le.
-    set (K := length (keys_ty t ++ env_keys E)) in *.
-    set (M := bigM (Nat.max (depth t) (env_depth E)) R) in *.
-    assert (length (filter (fun k => negb (is_seen k [])) (keys_ty t ++ env_keys E)) * M <= K * M)
-      by (apply Nat.mul_le_mono_r; exact Hf).
-    simpl. lia.
+    unfold fuel_bound. rewrite fuel_of_bigM.
+    pose proof (filter_len_le (fun k => negb (is_seen k [])) (keys_ty t ++ env_keys E)) as Hf.
+    unfold unseen.
+    generalize dependent (bigM (Nat.max (depth t) (env_depth E)) R). intros M Hmu.
+    generalize dependent (length (filter (fun k => negb (is_seen k [])) (keys_ty t ++ env_keys E))).
+    generalize (length (keys_ty t ++ env_keys E)). intros K a Ha.
+    assert (a * M <= K * M) by (apply Nat.mul_le_mono_r; exact Ha). lia.
   - now exists h.
+Qed.
+
+(* ------------------------------------------------------------------ *)
+(* more budget never changes an answer                                  *)
+(* ------------------------------------------------------------------ *)
+
+Definition rec_le (r r' : ty -> seen -> hres) : Prop := forall t s x, r t s = Some x -> r' t s = Some x.
+
+Lemma hash_values_mono r r' : rec_le r r' -> forall vs acc s x,
+  hash_values r vs acc s = Some x -> hash_values r' vs acc s = Some x.
+Proof.
+  intros Hr. induction vs as [|f vs IH]; intros acc s x; [easy|].
+  rewrite !hash_values_cons. destruct (r (ftype f) s) as [[h s']|] eqn:E1; [|easy].
+  rewrite (Hr _ _ _ E1). apply IH.
+Qed.
+
+Lemma hash_fields_mono r r' k igt : rec_le r r' -> forall fs acc s x,
+  hash_fields r k igt fs acc s = Some x -> hash_fields r' k igt fs acc s = Some x.
+Proof.
+  intros Hr. induction fs as [|f fs IH]; intros acc s x; [easy|].
+  rewrite !hash_fields_cons. destruct (r (ftype f) s) as [[h s']|] eqn:E1; [|easy].
+  rewrite (Hr _ _ _ E1). cbv zeta. apply IH.
+Qed.
+
+Lemma hash_fuel_mono fl E : forall n m, n <= m -> rec_le (hash n fl E) (hash m fl E).
+Proof.
+  induction n as [|n IH]; intros m Hm t s x; [easy|].
+  destruct m as [|m]; [lia|]. assert (Hnm : n <= m) by lia. specialize (IH m Hnm).
+  destruct t as [p|i e|ki k ei e|key fs|nm vs|id]; simpl.
+  - easy.
+  - destruct (hash n fl E e s) as [[h s']|] eqn:E1; [|easy]. now rewrite (IH _ _ _ E1).
+  - destruct (hash n fl E k s) as [[hk s1]|] eqn:E1; [|easy]. rewrite (IH _ _ _ E1).
+    destruct (hash n fl E e s1) as [[he s2]|] eqn:E2; [|easy]. now rewrite (IH _ _ _ E2).
+  - destruct (slookup key s); [easy|]. now apply hash_fields_mono.
+  - now apply hash_values_mono.
+  - destruct (elookup id E) as [d|]; [|easy]. destruct (igF fl); [easy|].
+    destruct (hash n fl E (ut_type d) s) as [[hb s']|] eqn:E1; [|easy]. now rewrite (IH _ _ _ E1).
+Qed.
+
+Lemma Hash_fuel_mono fl E t n m h : n <= m -> Hash n fl E t = Some h -> Hash m fl E t = Some h.
+Proof.
+  intros Hnm. unfold Hash. destruct (hash n fl E t []) as [[h' s']|] eqn:E1; [|easy].
+  rewrite (hash_fuel_mono fl E n m Hnm _ _ _ E1). easy.
+Qed.
+
+(* ------------------------------------------------------------------ *)
+(* structurally equal graphs hash alike (completeness)                  *)
+(* ------------------------------------------------------------------ *)
+
+Section Complete.
+  Variables (fl : flags) (ru rk : nat -> nat) (dom : nat -> Prop).
+  Hypothesis rk_inj : forall a b, rk a = rk b -> a = b.
+
+  Lemma slookup_map_seen k s : slookup (rk k) (map_seen rk s) = slookup k s.
+  Proof.
+    induction s as [|[k' v] s IH]; simpl; [reflexivity|].
+    destruct (Nat.eqb k k') eqn:E.
+    - apply Nat.eqb_eq in E. subst. now rewrite Nat.eqb_refl.
+    - assert (Nat.eqb (rk k) (rk k') = false) as ->; [|exact IH].
+      apply Nat.eqb_neq. intro C. apply rk_inj in C. apply Nat.eqb_neq in E. contradiction.
+  Qed.
+
+  Definition rec_rel (r r' : ty -> seen -> hres) : Prop :=
+    forall t t' s h s1, teq fl ru rk dom t t' -> r t s = Some (h, s1) -> r' t' (map_seen rk s) = Some (h, map_seen rk s1).
+
+  Lemma hash_values_rel r r' : rec_rel r r' -> forall vs vs',
+    Forall2 (fun f f' => fname f = fname f' /\ teq fl ru rk dom (ftype f) (ftype f')) vs vs' ->
+    forall acc s h s1, hash_values r vs acc s = Some (h, s1) ->
+                       hash_values r' vs' acc (map_seen rk s) = Some (h, map_seen rk s1).
+  Proof.
+    intros Hr vs vs' HF. induction HF as [|f f' vs vs' (Hn & Ht) HF IH]; intros acc s h s1.
+    - rewrite !hash_values_nil. now intros [= -> ->].
+    - rewrite !hash_values_cons. destruct (r (ftype f) s) as [[h0 s0]|] eqn:E1; [|easy].
+      rewrite (Hr _ _ _ _ _ Ht E1). rewrite <- Hn. apply IH.
+  Qed.
+
+  Lemma hash_fields_rel r r' key : rec_rel r r' -> forall fs fs',
+    Forall2 (fun f f' => fname f = fname f' /\ tags_ok fl (a_meta (finfo f)) (a_meta (finfo f'))
+                         /\ teq fl ru rk dom (ftype f) (ftype f')) fs fs' ->
+    forall acc s h s1, hash_fields r key (igT fl) fs acc s = Some (h, s1) ->
+                       hash_fields r' (rk key) (igT fl) fs' acc (map_seen rk s) = Some (h, map_seen rk s1).
+  Proof.
+    intros Hr fs fs' HF. induction HF as [|f f' fs fs' (Hn & Hg & Ht) HF IH]; intros acc s h s1.
+    - rewrite !hash_fields_nil. now intros [= -> ->].
+    - rewrite !hash_fields_cons. destruct (r (ftype f) s) as [[h0 s0]|] eqn:E1; [|easy].
+      rewrite (Hr _ _ _ _ _ Ht E1). cbv zeta. rewrite <- Hn.
+      assert (Htg : (if igT fl then [] else tags (a_meta (finfo f))) = (if igT fl then [] else tags (a_meta (finfo f')))).
+      { destruct Hg as [-> | ->]; [reflexivity|]. reflexivity. }
+      rewrite <- Htg. intro H. apply IH in H. exact H.
+  Qed.
+
+  Lemma hash_complete_lemma E E' : env_eq fl ru rk dom E E' ->
+    forall fuel, rec_rel (hash fuel fl E) (hash fuel fl E').
+  Proof.
+    intros HE. induction fuel as [|n IH]; intros t t' s h s1 Ht; [easy|].
+    inversion Ht as [p|i i' e e' He|ki ki' k k' ei ei' e e' Hk He|key fs fs' HF|nm vs vs' HF|id Hdom]; subst; simpl.
+    - now intros [= -> ->].
+    - destruct (hash n fl E e s) as [[h0 s0]|] eqn:E1; [|easy].
+      rewrite (IH _ _ _ _ _ He E1). now intros [= -> ->].
+    - destruct (hash n fl E k s) as [[hk s0]|] eqn:E1; [|easy]. rewrite (IH _ _ _ _ _ Hk E1).
+      destruct (hash n fl E e s0) as [[he s2]|] eqn:E2; [|easy]. rewrite (IH _ _ _ _ _ He E2).
+      now intros [= -> ->].
+    - rewrite slookup_map_seen. destruct (slookup key s) as [str|]; [now intros [= -> ->]|].
+      intro H. apply (hash_fields_rel _ _ key IH _ _ HF) in H. exact H.
+    - intro H. apply (hash_values_rel _ _ IH _ _ HF) in H. exact H.
+    - destruct (elookup id E) as [d|] eqn:El; [|easy].
+      destruct (HE id d Hdom El) as (d' & -> & Hn & Hb).
+      destruct (igF fl) eqn:EF.
+      + rewrite orb_true_r in *. rewrite (Hn eq_refl). now intros [= -> ->].
+      + destruct (Hb eq_refl) as [Hg Hty].
+        assert (Hname : igN fl = false -> ut_display_name d' = ut_display_name d).
+        { intro Ei. symmetry. apply Hn. now rewrite Ei. }
+        assert (Htag : igT fl = false -> tags (a_meta (ut_info d')) = tags (a_meta (ut_info d))).
+        { intro Ei. destruct Hg as [Hg|Hg]; [congruence|now symmetry]. }
+        destruct (igN fl); [|rewrite (Hname eq_refl)]; (destruct (igT fl); [|rewrite (Htag eq_refl)]); simpl;
+          (destruct (hash n fl E (ut_type d) s) as [[hb s0]|] eqn:E1; [|easy]);
+          rewrite (IH _ _ _ _ _ Hty E1); now intros [= -> ->].
+  Qed.
+End Complete.
+
+(* ------------------------------------------------------------------ *)
+(* sorting related lists gives related lists                            *)
+(* ------------------------------------------------------------------ *)
+
+Section SortRel.
+  Context {A B : Type} (key : A -> bytes) (key' : B -> bytes) (Rel : A -> B -> Prop).
+  Hypothesis Rel_key : forall x y, Rel x y -> key x = key' y.
+
+  Lemma insert_Forall2 x y l l' : Rel x y -> Forall2 Rel l l' -> Forall2 Rel (insert key x l) (insert key' y l').
+  Proof.
+    intros Hxy HF. induction HF as [|a b l l' Hab HF IH]; simpl; [now repeat constructor|].
+    rewrite <- (Rel_key _ _ Hxy), <- (Rel_key _ _ Hab).
+    destruct (blt (key a) (key x)); now repeat constructor.
+  Qed.
+
+  Lemma isort_Forall2 l l' : Forall2 Rel l l' -> Forall2 Rel (isort key l) (isort key' l').
+  Proof. induction 1; simpl; [constructor|]. now apply insert_Forall2. Qed.
+End SortRel.
+
+Lemma Forall2_diag {A} (Rel : A -> A -> Prop) l : Forall (fun x => Rel x x) l -> Forall2 Rel l l.
+Proof. induction 1; now constructor. Qed.
+
+Lemma Forall_perm {A} (P : A -> Prop) l l' : Permutation l l' -> Forall P l -> Forall P l'.
+Proof. intros Hp H. rewrite Forall_forall in *. intros x Hx. apply H. eapply Permutation_in; [apply Permutation_sym, Hp|exact Hx]. Qed.
+
+Definition idn (x : nat) : nat := x.
+Definition all_ids (x : nat) : Prop := True.
+
+Lemma tags_ok_refl fl m : tags_ok fl m m.
+Proof. now right. Qed.
+
+Lemma teq_refl fl t : teq fl idn idn all_ids t t.
+Proof.
+  induction t as [p|i e IH|ki k ei e IHk IHe|key fs IH|n vs IH|id] using ty_ind'.
+  - constructor.
+  - now constructor.
+  - now constructor.
+  - change (teq fl idn idn all_ids (TObj key fs) (TObj (idn key) fs)). constructor.
+    apply Forall2_diag. eapply Forall_perm; [apply isort_perm|].
+    eapply Forall_impl; [|exact IH]. intros f Hf. split; [reflexivity|]. split; [apply tags_ok_refl|exact Hf].
+  - constructor. apply Forall2_diag. eapply Forall_perm; [apply isort_perm|].
+    eapply Forall_impl; [|exact IH]. intros f Hf. now split.
+  - change (teq fl idn idn all_ids (TUser id) (TUser (idn id))). now constructor.
+Qed.
+
+Lemma env_eq_refl fl E : env_eq fl idn idn all_ids E E.
+Proof.
+  intros id d _ Hl. exists d. split; [exact Hl|]. split; [reflexivity|].
+  intros _. split; [apply tags_ok_refl|apply teq_refl].
+Qed.
+
+Lemma map_seen_idn s : map_seen idn s = s.
+Proof. induction s as [|[k v] s IH]; simpl; [reflexivity|]. now rewrite IH. Qed.
+
+(* completeness, whole-graph form *)
+Lemma hash_complete_top fl ru rk dom E E' t t' fuel h :
+  (forall a b, rk a = rk b -> a = b) ->
+  env_eq fl ru rk dom E E' -> teq fl ru rk dom t t' ->
+  Hash fuel fl E t = Some h -> Hash fuel fl E' t' = Some h.
+Proof.
+  intros Hinj HE Ht. unfold Hash.
+  destruct (hash fuel fl E t []) as [[h0 s0]|] eqn:E1; [|easy]. intros [= ->].
+  pose proof (hash_complete_lemma fl ru rk dom Hinj E E' HE fuel t t' [] h s0 Ht E1) as H.
+  simpl in H. now rewrite H.
+Qed.
+
+(* the order of the meta entries of one attribute of an object *)
+Lemma hash_meta_order_field fuel fl E k fs1 n i t fs2 m m' h :
+  Permutation m m' -> NoDup (map fst m) ->
+  Hash fuel fl E (TObj k (fs1 ++ F n (set_meta i m) t :: fs2)) = Some h ->
+  Hash fuel fl E (TObj k (fs1 ++ F n (set_meta i m') t :: fs2)) = Some h.
+Proof.
+  intros Hp Hn. apply (hash_complete_top fl idn idn all_ids E E); [auto|apply env_eq_refl|].
+  change (teq fl idn idn all_ids (TObj k (fs1 ++ F n (set_meta i m) t :: fs2))
+              (TObj (idn k) (fs1 ++ F n (set_meta i m') t :: fs2))).
+  constructor. apply isort_Forall2; [now intros x y (H & _)|].
+  apply Forall2_app; [|constructor].
+  - apply Forall2_diag, Forall_forall. intros f _. split; [reflexivity|]. split; [apply tags_ok_refl|apply teq_refl].
+  - split; [reflexivity|]. split; [right; simpl; now apply tags_perm|apply teq_refl].
+  - apply Forall2_diag, Forall_forall. intros f _. split; [reflexivity|]. split; [apply tags_ok_refl|apply teq_refl].
+Qed.
+
+(* the order of the meta entries of the attribute of a user type *)
+Definition set_user_meta (d : utdef) (m : meta) : utdef :=
+  UT (ut_name d) (ut_uid d) (set_meta (ut_info d) m) (ut_type d) (ut_rt d).
+
+Lemma mlookup_perm k m m' : Permutation m m' -> NoDup (map fst m) -> mlookup k m = mlookup k m'.
+Proof.
+  intros Hp. induction Hp as [|[a v] l l' Hp IH|[a v] [b w] l|l1 l2 l3 H1 IH1 H2 IH2]; intro Hn; simpl.
+  - reflexivity.
+  - inversion Hn; subst. destruct (beq k a); [reflexivity|auto].
+  - destruct (beq k b) eqn:Eb, (beq k a) eqn:Ea; try reflexivity.
+    apply beq_eq in Ea, Eb. subst. inversion Hn as [|? ? Hx _]; subst. exfalso. apply Hx. now left.
+  - rewrite IH1 by exact Hn. apply IH2. eapply Permutation_NoDup; [|exact Hn]. now apply Permutation_map.
+Qed.
+
+Lemma hash_meta_order_user fuel fl E1 id d E2 m m' t h :
+  Permutation m m' -> NoDup (map fst m) ->
+  Hash fuel fl (E1 ++ (id, set_user_meta d m) :: E2) t = Some h ->
+  Hash fuel fl (E1 ++ (id, set_user_meta d m') :: E2) t = Some h.
+Proof.
+  intros Hp Hn. apply (hash_complete_top fl idn idn all_ids); [auto| |apply teq_refl].
+  intros x dx _. unfold idn. induction E1 as [|[i0 d0] E1 IH]; simpl.
+  - destruct (Nat.eqb x id).
+    + intros [= <-]. eexists; split; [reflexivity|]. split.
+      * intros _. unfold ut_display_name. simpl. now rewrite (mlookup_perm _ _ _ Hp Hn).
+      * intros _. split; [right; simpl; now apply tags_perm|apply teq_refl].
+    + intro Hl. exists dx. split; [exact Hl|]. split; [reflexivity|]. intros _. split; [apply tags_ok_refl|apply teq_refl].
+  - destruct (Nat.eqb x i0); [|exact IH].
+    intros [= <-]. exists d0. split; [reflexivity|]. split; [reflexivity|]. intros _. split; [apply tags_ok_refl|apply teq_refl].
+Qed.
+
+(* the answer does not depend on the budget *)
+Lemma Hash_budget_irrelevant fl E t n m h h' : Hash n fl E t = Some h -> Hash m fl E t = Some h' -> h = h'.
+Proof.
+  intros H1 H2. destruct (Nat.le_ge_cases n m) as [L|L].
+  - rewrite (Hash_fuel_mono fl E t n m h L H1) in H2. now injection H2.
+  - rewrite (Hash_fuel_mono fl E t m n h' L H2) in H1. now injection H1.
+Qed.
+
+(* ------------------------------------------------------------------ *)
+(* the two recorded collisions of the hash                              *)
+(* ------------------------------------------------------------------ *)
+
+Definition ai_none : ainfo := AI [] None [] false [].
+Definition tInt : ty := TPrim PInt.
+(* {a: {b: int}, c: int}  and  {a: {b: int, c: int}} *)
+Definition w_flat : ty := TObj 0 [F [97%N] ai_none (TObj 1 [F [98%N] ai_none tInt]); F [99%N] ai_none tInt].
+Definition w_nested : ty := TObj 0 [F [97%N] ai_none (TObj 1 [F [98%N] ai_none tInt; F [99%N] ai_none tInt])].
+
+Lemma w_same_hash : Hash 8 equal_flags [] w_flat = Hash 8 equal_flags [] w_nested /\ Hash 8 equal_flags [] w_flat <> None.
+Proof. vm_compute. split; [reflexivity|discriminate]. Qed.
+
+Lemma w_not_teq ru rk dom : ~ teq equal_flags ru rk dom w_flat w_nested.
+Proof.
+  intro H. inversion H as [| | |key fs fs' HF| |]; subst.
+  vm_compute in HF. inversion HF as [|? ? ? ? _ HF']; subst. inversion HF'.
+Qed.
+
+(* T = {a: T}  and  T' = {a: U}, U = {} *)
+Definition e_rec : env := [(0, UT [84%N] [] ai_none (TObj 0 [F [97%N] ai_none (TUser 0)]) None)].
+Definition e_cut : env := [(0, UT [84%N] [] ai_none (TObj 0 [F [97%N] ai_none (TUser 1)]) None);
+                           (1, UT [85%N] [] ai_none (TObj 1 []) None)].
+
+Lemma rec_same_hash : Hash 8 equal_flags e_rec (TUser 0) = Hash 8 equal_flags e_cut (TUser 0)
+                      /\ Hash 8 equal_flags e_rec (TUser 0) <> None.
+Proof. vm_compute. split; [reflexivity|discriminate]. Qed.
+
+Lemma teq_user_inv fl ru rk dom a t' : teq fl ru rk dom (TUser a) t' -> t' = TUser (ru a) /\ dom a.
+Proof. inversion 1; auto. Qed.
+
+Lemma rec_not_teq ru rk dom : ~ (teq equal_flags ru rk dom (TUser 0) (TUser 0) /\ env_eq equal_flags ru rk dom e_rec e_cut).
+Proof.
+  intros [Ht HE]. apply teq_user_inv in Ht as [Hru Hd]. injection Hru as Hru.
+  destruct (HE 0 _ Hd eq_refl) as (d' & Hl & _ & Hb). rewrite <- Hru in Hl. simpl in Hl. injection Hl as <-.
+  destruct (Hb eq_refl) as [_ Hty]. simpl in Hty.
+  inversion Hty as [| | |key fs fs' HF| |]; subst. vm_compute in HF.
+  inversion HF as [|? ? ? ? (_ & _ & Hu) _]; subst. simpl in Hu.
+  apply teq_user_inv in Hu as [Hru' _]. congruence.
+Qed.
+
+(* ================================================================== *)
+(* Dup                                                                  *)
+(* ================================================================== *)
+
+Arguments dup_fields : simpl never.
+Arguments dup_values : simpl never.
+
+Lemma dup_fields_nil rec st acc : dup_fields rec [] st acc = Some (st, acc).
+Proof. reflexivity. Qed.
+Lemma dup_fields_cons rec f r st acc :
+  dup_fields rec (f :: r) st acc =
+  match rec st (ftype f) with
+  | None => None
+  | Some (st', t') => dup_fields rec r st' (obj_set acc (fname f) (dup_info (finfo f)) t')
+  end.
+Proof. reflexivity. Qed.
+Lemma dup_values_nil rec st : dup_values rec [] st = Some (st, []).
+Proof. reflexivity. Qed.
+Lemma dup_values_cons rec f r st :
+  dup_values rec (f :: r) st =
+  match rec st (ftype f) with
+  | None => None
+  | Some (st', t') => match dup_values rec r st' with
+                      | None => None
+                      | Some (st'', r') => Some (st'', F (fname f) (dup_info (finfo f)) t' :: r')
+                      end
+  end.
+Proof. reflexivity. Qed.
+
+Definition memo_ext (m m' : list (bytes * nat)) : Prop :=
+  forall k v, memo_lookup k m = Some v -> memo_lookup k m' = Some v.
+
+Lemma memo_ext_refl m : memo_ext m m.
+Proof. intros k v H; exact H. Qed.
+Lemma memo_ext_trans a b c : memo_ext a b -> memo_ext b c -> memo_ext a c.
+Proof. intros H1 H2 k v H. apply H2, H1, H. Qed.
+Lemma memo_ext_cons k v m : memo_lookup k m = None -> memo_ext m ((k, v) :: m).
+Proof.
+  intros Hn k' v' H. simpl. destruct (beq k' k) eqn:Eb; [|exact H].
+  apply beq_eq in Eb. subst. congruence.
+Qed.
+
+Lemma elookup_In id d (E : env) : elookup id E = Some d -> In (id, d) E.
+Proof.
+  induction E as [|[i x] E IH]; simpl; [easy|].
+  destruct (Nat.eqb id i) eqn:Ei.
+  - apply Nat.eqb_eq in Ei. subst. intros [= ->]. now left.
+  - intro H. right. now apply IH.
+Qed.
+
+Lemma filter_len_mono {A} (f f' : A -> bool) l :
+  (forall x, f' x = true -> f x = true) -> length (filter f' l) <= length (filter f l).
+Proof.
+  intro H. induction l as [|x r IH]; simpl; [lia|].
+  destruct (f' x) eqn:E1.
+  - rewrite (H _ E1). simpl. lia.
+  - destruct (f x); simpl; lia.
+Qed.
+
+Lemma filter_len_strict {A} (f f' : A -> bool) l x :
+  (forall y, f' y = true -> f y = true) -> In x l -> f x = true -> f' x = false ->
+  length (filter f' l) < length (filter f l).
+Proof.
+  intros H Hin Hx Hx'. induction l as [|y r IH]; [easy|]. simpl.
+  pose proof (filter_len_mono f f' r H) as Hle.
+  destruct Hin as [->|Hin].
+  - rewrite Hx, Hx'. simpl. lia.
+  - specialize (IH Hin). destruct (f' y) eqn:E1.
+    + rewrite (H _ E1). simpl. lia.
+    + destruct (f y); simpl; lia.
+Qed.
+
+(* ---- termination of Dup ---- *)
+Section DupTermination.
+  Variables (E : env) (offu offk D : nat).
+
+  Definition memoised (m : list (bytes * nat)) (d : utdef) : bool :=
+    match memo_lookup (ut_id d) m with Some _ => true | None => false end.
+  Definition unmemo (m : list (bytes * nat)) : nat := length (filter (fun p => negb (memoised m (snd p))) E).
+
+  Definition dwf (t : ty) : Prop := depth t <= D /\ forall v, In v (users_ty t) -> elookup v E <> None.
+  Definition dwf_env : Prop := forall id d, elookup id E = Some d -> dwf (ut_type d).
+
+  Lemma memoised_ext m m' d : memo_ext m m' -> negb (memoised m' d) = true -> negb (memoised m d) = true.
+  Proof.
+    intros H. unfold memoised. destruct (memo_lookup (ut_id d) m) as [v|] eqn:E1; [|easy].
+    now rewrite (H _ _ E1).
+  Qed.
+
+  Lemma unmemo_mono m m' : memo_ext m m' -> unmemo m' <= unmemo m.
+  Proof. intro H. apply filter_len_mono. intros [i d]. apply memoised_ext, H. Qed.
+
+  Lemma unmemo_cons_lt m id d v :
+    In (id, d) E -> memo_lookup (ut_id d) m = None -> unmemo ((ut_id d, v) :: m) < unmemo m.
+  Proof.
+    intros Hin Hn. pose proof (memo_ext_cons (ut_id d) v m Hn) as Hext.
+    apply (filter_len_strict _ _ E (id, d)); [|exact Hin| |].
+    - intros [i x]. apply memoised_ext, Hext.
+    - unfold memoised. simpl. now rewrite Hn.
+    - unfold memoised. simpl. now rewrite beq_refl.
+  Qed.
+
+  Lemma dwf_sub t t' : dwf t -> depth t' < depth t -> incl (users_ty t') (users_ty t) -> dwf t' /\ depth t' < depth t.
+  Proof. intros [Hd Hu] H1 H2. repeat split; [lia| |exact H1]. intros v Hv. apply Hu, H2, Hv. Qed.
+
+  Lemma depth_field f fs : In f fs -> depth (ftype f) <= maxl (map (fun f => depth (ftype f)) fs).
+  Proof. intro H. apply maxl_in, (in_map (fun f => depth (ftype f))), H. Qed.
+
+  Lemma users_field f (fs : list (fld ty)) : In f fs -> incl (users_ty (ftype f)) (flat_map (fun f => users_ty (ftype f)) fs).
+  Proof. intros H v Hv. apply in_flat_map. now exists f. Qed.
+
+  Definition dspec (rec : dstate -> ty -> dres ty) (bound : nat) (t : ty) : Prop :=
+    forall st, unmemo (memo st) <= bound -> exists st' t', rec st t = Some (st', t') /\ memo_ext (memo st) (memo st').
+
+  Lemma dup_values_total rec bound vs :
+    (forall f, In f vs -> dspec rec bound (ftype f)) ->
+    forall st, unmemo (memo st) <= bound ->
+      exists st' vs', dup_values rec vs st = Some (st', vs') /\ memo_ext (memo st) (memo st').
+  Proof.
+    induction vs as [|f r IH]; intros Hrec st Hb.
+    - exists st, []. split; [reflexivity|apply memo_ext_refl].
+    - rewrite dup_values_cons. destruct (Hrec f (or_introl eq_refl) st Hb) as (st1 & t1 & -> & H1).
+      destruct (IH (fun f' Hf' => Hrec f' (or_intror Hf')) st1) as (st2 & r' & -> & H2).
+      { pose proof (unmemo_mono _ _ H1). lia. }
+      eexists _, _. split; [reflexivity|]. eapply memo_ext_trans; eassumption.
+  Qed.
+
+  Lemma dup_fields_total rec bound fs :
+    (forall f, In f fs -> dspec rec bound (ftype f)) ->
+    forall st acc, unmemo (memo st) <= bound ->
+      exists st' fs', dup_fields rec fs st acc = Some (st', fs') /\ memo_ext (memo st) (memo st').
+  Proof.
+    induction fs as [|f r IH]; intros Hrec st acc Hb.
+    - exists st, acc. split; [reflexivity|apply memo_ext_refl].
+    - rewrite dup_fields_cons. destruct (Hrec f (or_introl eq_refl) st Hb) as (st1 & t1 & -> & H1).
+      destruct (IH (fun f' Hf' => Hrec f' (or_intror Hf')) st1 (obj_set acc (fname f) (dup_info (finfo f)) t1))
+        as (st2 & r' & -> & H2).
+      { pose proof (unmemo_mono _ _ H1). lia. }
+      eexists _, _. split; [reflexivity|]. eapply memo_ext_trans; eassumption.
+  Qed.
+
+  Lemma dup_total : dwf_env ->
+    forall fuel st t, dwf t -> fuel > unmemo (memo st) * S D + depth t ->
+      exists st' t', dup_ty E offu offk fuel st t = Some (st', t') /\ memo_ext (memo st) (memo st').
+  Proof.
+    intro HE. induction fuel as [|n IH]; intros st t Hwf Hfuel; [lia|].
+    assert (Hstep : forall t' , dwf t' -> depth t' < depth t -> dspec (dup_ty E offu offk n) (unmemo (memo st)) t').
+    { intros t' Hw Hd st' Hb. apply IH; [exact Hw|].
+      assert (unmemo (memo st') * S D <= unmemo (memo st) * S D) by (apply Nat.mul_le_mono_r; exact Hb). lia. }
+    destruct t as [p|i e|ki k ei e|key fs|nm vs|id]; simpl.
+    - eexists _, _. split; [reflexivity|apply memo_ext_refl].
+    - destruct (dwf_sub _ e Hwf) as [Hwe Hde]; [simpl; lia|simpl; apply incl_refl|].
+      destruct (Hstep e Hwe Hde st (Nat.le_refl _)) as (st1 & e' & -> & H1).
+      eexists _, _. split; [reflexivity|exact H1].
+    - destruct (dwf_sub _ k Hwf) as [Hwk Hdk]; [simpl; lia|simpl; apply incl_appl, incl_refl|].
+      destruct (dwf_sub _ e Hwf) as [Hwe Hde]; [simpl; lia|simpl; apply incl_appr, incl_refl|].
+      destruct (Hstep k Hwk Hdk st (Nat.le_refl _)) as (st1 & k' & -> & H1).
+      destruct (Hstep e Hwe Hde st1 (unmemo_mono _ _ H1)) as (st2 & e' & -> & H2).
+      eexists _, _. split; [reflexivity|]. eapply memo_ext_trans; eassumption.
+    - destruct (dup_fields_total (dup_ty E offu offk n) (unmemo (memo st)) fs) with (st := st) (acc := @nil (fld ty))
+        as (st1 & fs' & -> & H1); [|lia|].
+      + intros f Hf. pose proof (depth_field f fs Hf).
+        destruct (dwf_sub _ (ftype f) Hwf) as [Hwff Hdf]; [simpl; lia|simpl; now apply users_field|].
+        now apply Hstep.
+      + eexists _, _. split; [reflexivity|exact H1].
+    - destruct (dup_values_total (dup_ty E offu offk n) (unmemo (memo st)) vs) with (st := st)
+        as (st1 & vs' & -> & H1); [|lia|].
+      + intros f Hf. pose proof (depth_field f vs Hf).
+        destruct (dwf_sub _ (ftype f) Hwf) as [Hwff Hdf]; [simpl; lia|simpl; now apply users_field|].
+        now apply Hstep.
+      + eexists _, _. split; [reflexivity|exact H1].
+    - destruct Hwf as [Hd Hu]. pose proof (Hu id (or_introl eq_refl)) as Hdom.
+      destruct (elookup id E) as [d|] eqn:El; [|congruence].
+      destruct (memo_lookup (ut_id d) (memo st)) as [nid|] eqn:Em.
+      + eexists _, _. split; [reflexivity|apply memo_ext_refl].
+      + pose proof (unmemo_cons_lt (memo st) id d (offu + id) (elookup_In _ _ _ El) Em) as Hlt.
+        destruct (HE id d El) as [Hdb Hub].
+        destruct (IH (DS ((ut_id d, offu + id) :: memo st) (copies st)) (ut_type d) (conj Hdb Hub)) as (st2 & t' & -> & H2).
+        { simpl.
+          assert (S (unmemo ((ut_id d, offu + id) :: memo st)) * S D <= unmemo (memo st) * S D)
+            by (apply Nat.mul_le_mono_r; lia). simpl in *. lia. }
+        eexists _, _. split; [reflexivity|]. simpl.
+        eapply memo_ext_trans; [apply (memo_ext_cons _ (offu + id) _ Em)|exact H2].
+  Qed.
+End DupTermination.
+
+Lemma dup_terminates_lemma E offu offk t :
+  dwf_env E (Nat.max (depth t) (env_depth E)) -> dwf E (Nat.max (depth t) (env_depth E)) t ->
+  exists E' t', Dup E offu offk (dup_fuel E t) t = Some (E', t').
+Proof.
+  intros HE Ht. unfold Dup.
+  destruct (dup_total E offu offk _ HE (dup_fuel E t) (DS [] []) t Ht) as (st' & t' & -> & _).
+  - unfold dup_fuel. simpl memo.
+    assert (Hu : unmemo E [] <= length E) by apply filter_len_le.
+    destruct Ht as [Hd _].
+    set (D := Nat.max (depth t) (env_depth E)) in *.
+    assert (unmemo E [] * S D <= length E * S D) by (apply Nat.mul_le_mono_r; exact Hu). lia.
+  - now eexists _, _.
+Qed.
+
+(* ---- the result of Dup is the original with every pointer renamed ---- *)
+
+Lemma obj_set_fresh acc n i t : ~ In n (map fname acc) -> obj_set acc n i t = acc ++ [F n i t].
+Proof.
+  induction acc as [|g r IH]; simpl; intro H; [reflexivity|].
+  destruct (beq (fname g) n) eqn:Eb.
+  - apply beq_eq in Eb. exfalso. apply H. now left.
+  - f_equal. apply IH. intro C. apply H. now right.
+Qed.
+
+Lemma names_ok_fields fs : fold_right (fun f acc => names_ok (ftype f) /\ acc) True fs -> forall f, In f fs -> names_ok (ftype f).
+Proof. induction fs as [|g r IH]; simpl; [easy|]. intros [H1 H2] f [<-|Hf]; [exact H1|now apply IH]. Qed.
+
+Section DupShape.
+  Variables (E : env) (offu offk : nat).
+  Hypothesis uid_inj : forall id id' d d',
+      elookup id E = Some d -> elookup id' E = Some d' -> ut_id d = ut_id d' -> id = id'.
+  Hypothesis names_env : forall id d, elookup id E = Some d -> names_ok (ut_type d).
+
+  Let sh := shift_ty offu offk.
+  Let shf (f : fld ty) : fld ty := F (fname f) (dup_info (finfo f)) (sh (ftype f)).
+
+  Definition memo_ok (m : list (bytes * nat)) : Prop :=
+    forall id d nid, elookup id E = Some d -> memo_lookup (ut_id d) m = Some nid -> nid = offu + id.
+  Definition is_memo (m : list (bytes * nat)) (id : nat) : Prop :=
+    exists d, elookup id E = Some d /\ memo_lookup (ut_id d) m <> None.
+  Definition completed (st : dstate) (id : nat) : Prop :=
+    forall d, elookup id E = Some d ->
+      elookup (offu + id) (copies st) = Some (shift_def offu offk d) /\
+      forall v, In v (users_ty (ut_type d)) -> is_memo (memo st) v.
+  Definition done_ok (stk : list nat) (st : dstate) : Prop :=
+    forall id, is_memo (memo st) id -> In id stk \/ completed st id.
+  Definition copies_ok (st : dstate) : Prop :=
+    forall x d', In (x, d') (copies st) -> exists id d, x = offu + id /\ elookup id E = Some d /\ d' = shift_def offu offk d.
+  Definition good (stk : list nat) (st : dstate) : Prop :=
+    memo_ok (memo st) /\ done_ok stk st /\ copies_ok st.
+
+  Lemma is_memo_ext m m' id : memo_ext m m' -> is_memo m id -> is_memo m' id.
+  Proof.
+    intros H (d & Hl & Hm). exists d. split; [exact Hl|].
+    destruct (memo_lookup (ut_id d) m) as [v|] eqn:E1; [|congruence]. now rewrite (H _ _ E1).
+  Qed.
+
+  Definition step_spec (stk : list nat) (rec : dstate -> ty -> dres ty) (t : ty) : Prop :=
+    forall st st' t', rec st t = Some (st', t') -> good stk st ->
+      t' = sh t /\ good stk st' /\ memo_ext (memo st) (memo st') /\
+      (forall v, In v (users_ty t) -> is_memo (memo st') v).
+
+  Lemma dup_values_shape stk rec vs :
+    (forall f, In f vs -> step_spec stk rec (ftype f)) ->
+    forall st st' vs', dup_values rec vs st = Some (st', vs') -> good stk st ->
+      vs' = map shf vs /\ good stk st' /\ memo_ext (memo st) (memo st') /\
+      (forall f v, In f vs -> In v (users_ty (ftype f)) -> is_memo (memo st') v).
+  Proof.
+    induction vs as [|f r IH]; intros Hrec st st' vs'.
+    - rewrite dup_values_nil. intros [= <- <-] Hg.
+      split; [reflexivity|]. split; [exact Hg|]. split; [apply memo_ext_refl|]. intros f v [].
+    - rewrite dup_values_cons. destruct (rec st (ftype f)) as [[st1 t1]|] eqn:E1; [|easy].
+      destruct (dup_values rec r st1) as [[st2 r']|] eqn:E2; [|easy]. intros [= <- <-] Hg.
+      destruct (Hrec f (or_introl eq_refl) _ _ _ E1 Hg) as (-> & Hg1 & Hx1 & Hu1).
+      destruct (IH (fun f' Hf' => Hrec f' (or_intror Hf')) _ _ _ E2 Hg1) as (-> & Hg2 & Hx2 & Hu2).
+      split; [reflexivity|]. split; [exact Hg2|]. split.
+      + eapply memo_ext_trans; eassumption.
+      + intros f' v [<-|Hf'] Hv; [eapply is_memo_ext; [exact Hx2|now apply Hu1]|now apply (Hu2 f')].
+  Qed.
+
+  Lemma dup_fields_shape stk rec fs :
+    (forall f, In f fs -> step_spec stk rec (ftype f)) ->
+    forall acc st st' fs', dup_fields rec fs st acc = Some (st', fs') -> good stk st ->
+      NoDup (map fname acc ++ map fname fs) ->
+      fs' = acc ++ map shf fs /\ good stk st' /\ memo_ext (memo st) (memo st') /\
+      (forall f v, In f fs -> In v (users_ty (ftype f)) -> is_memo (memo st') v).
+  Proof.
+    induction fs as [|f r IH]; intros Hrec acc st st' fs'.
+    - rewrite dup_fields_nil. intros [= <- <-] Hg _. rewrite app_nil_r.
+      split; [reflexivity|]. split; [exact Hg|]. split; [apply memo_ext_refl|]. intros f v [].
+    - rewrite dup_fields_cons. destruct (rec st (ftype f)) as [[st1 t1]|] eqn:E1; [|easy].
+      intros E2 Hg Hnd.
+      destruct (Hrec f (or_introl eq_refl) _ _ _ E1 Hg) as (-> & Hg1 & Hx1 & Hu1).
+      assert (Hfresh : ~ In (fname f) (map fname acc)).
+      { simpl in Hnd. apply NoDup_remove_2 in Hnd. intro C. apply Hnd. apply in_or_app. now left. }
+      rewrite (obj_set_fresh _ _ _ _ Hfresh) in E2.
+      destruct (IH (fun f' Hf' => Hrec f' (or_intror Hf')) _ _ _ _ E2 Hg1) as (-> & Hg2 & Hx2 & Hu2).
+      { rewrite map_app. simpl. rewrite <- app_assoc. simpl. exact Hnd. }
+      split; [rewrite <- app_assoc; reflexivity|]. split; [exact Hg2|]. split.
+      + eapply memo_ext_trans; eassumption.
+      + intros f' v [<-|Hf'] Hv; [eapply is_memo_ext; [exact Hx2|now apply Hu1]|now apply (Hu2 f')].
+  Qed.
+
+  Lemma completed_keep st st' id :
+    copies st' = copies st -> memo_ext (memo st) (memo st') -> completed st id -> completed st' id.
+  Proof.
+    intros Hc Hm H d Hl. destruct (H d Hl) as [H1 H2]. rewrite Hc. split; [exact H1|].
+    intros v Hv. eapply is_memo_ext; [exact Hm|now apply H2].
+  Qed.
+
+  Lemma dup_shape : forall fuel stk t, names_ok t -> step_spec stk (dup_ty E offu offk fuel) t.
+  Proof.
+    induction fuel as [|n IH]; intros stk t Hnames st st' t'; [easy|].
+    destruct t as [p|i e|ki k ei e|key fs|nm vs|id]; simpl.
+    - intros [= <- <-] Hg. split; [reflexivity|]. split; [exact Hg|]. split; [apply memo_ext_refl|]. intros v [].
+    - destruct (dup_ty E offu offk n st e) as [[st1 e']|] eqn:E1; [|easy]. intros [= <- <-] Hg.
+      destruct (IH stk e Hnames _ _ _ E1 Hg) as (-> & Hg1 & Hx1 & Hu1).
+      split; [reflexivity|]. split; [exact Hg1|]. split; [exact Hx1|exact Hu1].
+    - destruct Hnames as [Hnk Hne].
+      destruct (dup_ty E offu offk n st k) as [[st1 k']|] eqn:E1; [|easy].
+      destruct (dup_ty E offu offk n st1 e) as [[st2 e']|] eqn:E2; [|easy]. intros [= <- <-] Hg.
+      destruct (IH stk k Hnk _ _ _ E1 Hg) as (-> & Hg1 & Hx1 & Hu1).
+      destruct (IH stk e Hne _ _ _ E2 Hg1) as (-> & Hg2 & Hx2 & Hu2).
+      split; [reflexivity|]. split; [exact Hg2|]. split.
+      + eapply memo_ext_trans; eassumption.
+      + intros v Hv. simpl in Hv. apply in_app_or in Hv as [Hv|Hv]; [eapply is_memo_ext; [exact Hx2|now apply Hu1]|now apply Hu2].
+    - destruct Hnames as [Hnd Hnf].
+      destruct (dup_fields (dup_ty E offu offk n) fs st []) as [[st1 fs']|] eqn:E1; [|easy]. intros [= <- <-] Hg.
+      destruct (dup_fields_shape stk (dup_ty E offu offk n) fs) with (acc := @nil (fld ty)) (st := st) (st' := st1) (fs' := fs')
+        as (-> & Hg1 & Hx1 & Hu1); try assumption.
+      + intros f Hf. apply IH. now apply (names_ok_fields fs Hnf).
+      + split; [reflexivity|]. split; [exact Hg1|]. split; [exact Hx1|].
+        intros v Hv. simpl in Hv. apply in_flat_map in Hv as (f & Hf & Hv). now apply (Hu1 f).
+    - destruct (dup_values (dup_ty E offu offk n) vs st) as [[st1 vs']|] eqn:E1; [|easy]. intros [= <- <-] Hg.
+      destruct (dup_values_shape stk (dup_ty E offu offk n) vs) with (st := st) (st' := st1) (vs' := vs')
+        as (-> & Hg1 & Hx1 & Hu1); try assumption.
+      + intros f Hf. apply IH. now apply (names_ok_fields vs Hnames).
+      + split; [reflexivity|]. split; [exact Hg1|]. split; [exact Hx1|].
+        intros v Hv. simpl in Hv. apply in_flat_map in Hv as (f & Hf & Hv). now apply (Hu1 f).
+    - destruct (elookup id E) as [d|] eqn:El; [|easy].
+      destruct (memo_lookup (ut_id d) (memo st)) as [nid|] eqn:Em.
+      + intros [= <- <-] Hg. pose proof Hg as (Hmo & Hdo & Hco).
+        rewrite (Hmo id d nid El Em). split; [reflexivity|]. split; [exact Hg|]. split; [apply memo_ext_refl|].
+        intros v [<-|[]]. exists d. split; [exact El|congruence].
+      + destruct (dup_ty E offu offk n (DS ((ut_id d, offu + id) :: memo st) (copies st)) (ut_type d)) as [[st2 tb]|] eqn:E1; [|easy].
+        intros [= <- <-] (Hmo & Hdo & Hco).
+        pose proof (memo_ext_cons (ut_id d) (offu + id) (memo st) Em) as Hext1.
+        assert (Hg1 : good (id :: stk) (DS ((ut_id d, offu + id) :: memo st) (copies st))).
+        { split; [|split].
+          - intros id' d' nid' Hl'. simpl. destruct (beq (ut_id d') (ut_id d)) eqn:Eb.
+            + apply beq_eq in Eb. intros [= <-]. f_equal. exact (uid_inj _ _ _ _ El Hl' (eq_sym Eb)).
+            + apply Hmo. exact Hl'.
+          - intros x (dx & Hlx & Hmx). simpl in Hmx. destruct (beq (ut_id dx) (ut_id d)) eqn:Eb.
+            + apply beq_eq in Eb. left. left. exact (uid_inj _ _ _ _ El Hlx (eq_sym Eb)).
+            + destruct (Hdo x) as [Hs|Hc]; [now exists dx|left; now right|].
+              right. eapply completed_keep; [| |exact Hc]; [reflexivity|exact Hext1].
+          - exact Hco. }
+        destruct (IH (id :: stk) (ut_type d) (names_env id d El) _ _ _ E1 Hg1) as (-> & (Hmo2 & Hdo2 & Hco2) & Hx2 & Hu2).
+        simpl in Hx2.
+        split; [reflexivity|]. split; [split; [|split]|split].
+        * exact Hmo2.
+        * (* done_ok *)
+          intros x Hx. simpl in Hx.
+          destruct (Nat.eq_dec x id) as [->|Hne].
+          { right. intros d0 Hl0. rewrite El in Hl0. injection Hl0 as <-. simpl. rewrite Nat.eqb_refl.
+            split; [reflexivity|]. intros v Hv. now apply Hu2. }
+          destruct (Hdo2 x Hx) as [[Heq|Hs]|Hc]; [congruence|now left|].
+          right. intros dx Hlx. destruct (Hc dx Hlx) as [H1 H2]. simpl.
+          assert (Nat.eqb (offu + x) (offu + id) = false) as -> by (apply Nat.eqb_neq; lia).
+          split; [exact H1|exact H2].
+        * (* copies_ok *)
+          intros x d' [Heq|Hin]; [|now apply Hco2].
+          injection Heq as <- <-. exists id, d. repeat split. exact El.
+        * simpl. eapply memo_ext_trans; [exact Hext1|exact Hx2].
+        * simpl. intros v [<-|[]]. exists d. split; [exact El|].
+          assert (memo_lookup (ut_id d) ((ut_id d, offu + id) :: memo st) = Some (offu + id)) as Hnew by (simpl; now rewrite beq_refl).
+          rewrite (Hx2 _ _ Hnew). congruence.
+  Qed.
+End DupShape.
+
+(* ---- consequences: the copy hashes like the original, is fresh, shares only views ---- *)
+
+Section DupFacts.
+  Variables (E : env) (offu offk : nat).
+  Let ru (id : nat) : nat := offu + id.
+  Let rk (k : nat) : nat := offk + k.
+  Let sh := shift_ty offu offk.
+
+  Lemma teq_shift fl (dom : nat -> Prop) t :
+    (forall v, In v (users_ty t) -> dom v) -> teq fl ru rk dom t (sh t).
+  Proof.
+    induction t as [p|i e IH|ki k ei e IHk IHe|key fs IH|n vs IH|id] using ty_ind'; intro Hu; simpl.
+    - constructor.
+    - constructor. now apply IH.
+    - constructor; [apply IHk|apply IHe]; intros v Hv; apply Hu; simpl; apply in_or_app; auto.
+    - change (teq fl ru rk dom (TObj key fs)
+                  (TObj (rk key) (map (fun f => F (fname f) (dup_info (finfo f)) (shift_ty offu offk (ftype f))) fs))).
+      constructor. apply isort_Forall2; [now intros x y (H & _)|].
+      rewrite Forall_forall in IH. simpl in Hu. clear key.
+      induction fs as [|f r IHr]; simpl; constructor.
+      + split; [reflexivity|]. split; [now right|].
+        apply IH; [now left|]. intros v Hv. apply Hu. simpl. apply in_or_app. now left.
+      + apply IHr; [intros g Hg; apply IH; now right|]. intros v Hv. apply Hu. simpl. apply in_or_app. now right.
+    - constructor. apply isort_Forall2; [now intros x y (H & _)|].
+      rewrite Forall_forall in IH. simpl in Hu.
+      induction vs as [|f r IHr]; simpl; constructor.
+      + split; [reflexivity|].
+        apply IH; [now left|]. intros v Hv. apply Hu. simpl. apply in_or_app. now left.
+      + apply IHr; [intros g Hg; apply IH; now right|]. intros v Hv. apply Hu. simpl. apply in_or_app. now right.
+    - change (teq fl ru rk dom (TUser id) (TUser (ru id))). constructor. apply Hu. now left.
+  Qed.
+
+  Lemma display_name_shift d : ut_display_name (shift_def offu offk d) = ut_display_name d.
+  Proof. unfold ut_display_name, shift_def. simpl. destruct (ut_rt d); reflexivity. Qed.
+
+  Hypothesis uid_inj : forall id id' d d',
+      elookup id E = Some d -> elookup id' E = Some d' -> ut_id d = ut_id d' -> id = id'.
+  Hypothesis names_env : forall id d, elookup id E = Some d -> names_ok (ut_type d).
+
+  Lemma good_init : good E offu offk [] (DS [] []).
+  Proof.
+    split; [|split].
+    - intros id d nid _ H. discriminate H.
+    - intros id (d & _ & H). now contradiction H.
+    - intros x d' [].
+  Qed.
+
+  (* everything that follows from a successful Dup *)
+  Lemma dup_result fuel t E' t' :
+    names_ok t -> Dup E offu offk fuel t = Some (E', t') ->
+    t' = sh t /\
+    exists dom : nat -> Prop,
+      (forall v, In v (users_ty t) -> dom v) /\
+      (forall id d, dom id -> elookup id E = Some d ->
+         elookup (offu + id) E' = Some (shift_def offu offk d) /\ forall v, In v (users_ty (ut_type d)) -> dom v) /\
+      (forall x d', In (x, d') E' -> exists id d, x = offu + id /\ elookup id E = Some d /\ d' = shift_def offu offk d).
+  Proof.
+    intros Hn. unfold Dup. destruct (dup_ty E offu offk fuel (DS [] []) t) as [[st t1]|] eqn:E1; [|easy].
+    intros [= <- <-].
+    destruct (dup_shape E offu offk uid_inj names_env fuel [] t Hn _ _ _ E1 good_init) as (-> & (Hmo & Hdo & Hco) & _ & Hu).
+    split; [reflexivity|]. exists (is_memo E (memo st)). split; [exact Hu|]. split; [|exact Hco].
+    intros id d Hdom Hl. destruct (Hdo id Hdom) as [[]|Hc]. exact (Hc d Hl).
+  Qed.
+
+  Lemma dup_equal_lemma fl fuel f t E' t' h :
+    names_ok t -> Dup E offu offk fuel t = Some (E', t') ->
+    Hash f fl E t = Some h -> Hash f fl E' t' = Some h.
+  Proof.
+    intros Hn Hd. destruct (dup_result fuel t E' t' Hn Hd) as (-> & dom & Hroot & Henv & _).
+    apply (hash_complete_top fl ru rk dom E E').
+    - intros a b. unfold rk. lia.
+    - intros id d Hdom Hl. destruct (Henv id d Hdom Hl) as [Hc Hu].
+      exists (shift_def offu offk d). split; [exact Hc|]. split.
+      + intros _. symmetry. apply display_name_shift.
+      + intros _. split; [now right|]. simpl. now apply teq_shift.
+    - now apply teq_shift.
+  Qed.
+
+  (* pointers of a shifted type *)
+  Lemma users_shift t v : In v (users_ty (sh t)) -> offu <= v.
+  Proof.
+    induction t as [p|i e IH|ki k ei e IHk IHe|key fs IH|n vs IH|id] using ty_ind'; simpl; try easy.
+    - intro H. apply in_app_or in H as [H|H]; auto.
+    - rewrite Forall_forall in IH. intro H. apply in_flat_map in H as (g & Hg & Hv).
+      apply in_map_iff in Hg as (f & <- & Hf). simpl in Hv. now apply (IH f).
+    - rewrite Forall_forall in IH. intro H. apply in_flat_map in H as (g & Hg & Hv).
+      apply in_map_iff in Hg as (f & <- & Hf). simpl in Hv. now apply (IH f).
+    - intros [<-|[]]. lia.
+  Qed.
+
+  Lemma keys_shift t k : In k (keys_ty (sh t)) -> offk <= k.
+  Proof.
+    induction t as [p|i e IH|ki kt ei e IHk IHe|key fs IH|n vs IH|id] using ty_ind'; simpl; try easy.
+    - intro H. apply in_app_or in H as [H|H]; auto.
+    - rewrite Forall_forall in IH. intros [<-|H]; [lia|]. apply in_flat_map in H as (g & Hg & Hv).
+      apply in_map_iff in Hg as (f & <- & Hf). simpl in Hv. now apply (IH f).
+    - rewrite Forall_forall in IH. intro H. apply in_flat_map in H as (g & Hg & Hv).
+      apply in_map_iff in Hg as (f & <- & Hf). simpl in Hv. now apply (IH f).
+  Qed.
+
+  Lemma dup_fresh_lemma fuel t E' t' :
+    names_ok t -> Dup E offu offk fuel t = Some (E', t') ->
+    (forall v, In v (users_ty t') -> offu <= v) /\ (forall k, In k (keys_ty t') -> offk <= k) /\
+    (forall x d', In (x, d') E' ->
+       offu <= x /\ (forall v, In v (users_ty (ut_type d')) -> offu <= v) /\ (forall k, In k (keys_ty (ut_type d')) -> offk <= k)).
+  Proof.
+    intros Hn Hd. destruct (dup_result fuel t E' t' Hn Hd) as (-> & dom & _ & _ & Hco).
+    split; [apply users_shift|]. split; [apply keys_shift|].
+    intros x d' Hin. destruct (Hco x d' Hin) as (id & d & -> & _ & ->). split; [lia|]. simpl.
+    split; [apply users_shift|apply keys_shift].
+  Qed.
+
+  (* views: the copy of a result type points to the views of the original *)
+  Lemma dup_views_lemma fuel t E' t' :
+    names_ok t -> Dup E offu offk fuel t = Some (E', t') -> incl (views_of E') (views_of E).
+  Proof.
+    intros Hn Hd. destruct (dup_result fuel t E' t' Hn Hd) as (_ & dom & _ & _ & Hco).
+    intros v Hv. unfold views_of in *. apply in_flat_map in Hv as ([x d'] & Hin & Hv).
+    destruct (Hco x d' Hin) as (id & d & -> & Hl & ->). simpl in Hv.
+    apply in_flat_map. exists (id, d). split; [now apply elookup_In|]. simpl.
+    destruct (ut_rt d); exact Hv.
+  Qed.
+End DupFacts.
+
+(* writes through the copy (any change of the user types the copy owns) are invisible
+   at the pointers of the original *)
+Lemma elookup_app_fresh (E E'' : env) off id :
+  (forall x d, In (x, d) E'' -> off <= x) -> id < off -> elookup id (E'' ++ E) = elookup id E.
+Proof.
+  intros H Hid. induction E'' as [|[x d] r IH]; simpl; [reflexivity|].
+  assert (off <= x) by (apply (H x d); now left).
+  assert (Nat.eqb id x = false) as -> by (apply Nat.eqb_neq; lia).
+  apply IH. intros y dy Hy. apply (H y dy). now right.
+Qed.
+
+(* the view finding: a result type with one view; the copy reaches the same view *)
+Definition e_views : env :=
+  [(0, UT [82%N] [] ai_none (TObj 0 [F [105;100]%N ai_none tInt]) (Some (RT [114%N] [] [0])))].
+
+Lemma views_shared_example :
+  exists E' t', Dup e_views 1 1 (dup_fuel e_views (TUser 0)) (TUser 0) = Some (E', t') /\
+                In 0 (views_of E') /\ In 0 (views_of e_views).
+Proof. vm_compute. eexists _, _. split; [reflexivity|]. split; now left. Qed.
+
+(* fields Dup does not copy *)
+Lemma dup_info_id i : a_docs i = false -> dup_info i = i.
+Proof. destruct i as [m v d docs o]. simpl. now intros ->. Qed.
+Lemma dup_info_docs_lost : exists i, dup_info i <> i.
+Proof. exists (AI [] None [] true []). discriminate. Qed.
+Lemma dup_rt_id r : (forall x, r = Some x -> rt_ctype x = []) -> dup_rt r = r.
+Proof. destruct r as [[i c v]|]; simpl; [|reflexivity]. intro H. specialize (H _ eq_refl). simpl in H. now subst. Qed.
+Lemma dup_rt_ctype_lost : exists r, dup_rt r <> r.
+Proof. exists (Some (RT [] [1%N] [])). discriminate. Qed.
+
+(* a sequence of writes at fresh pointers is invisible at the pointers of the original *)
+Lemma apply_writes_fresh ws (H : env) off id :
+  Forall (fun w => off <= fst w) ws -> id < off -> elookup id (apply_writes ws H) = elookup id H.
+Proof.
+  revert H. induction ws as [|[x d] ws IH]; intros H Hf Hid; simpl; [reflexivity|].
+  inversion Hf as [|? ? Hx Hr]; subst. simpl in Hx. rewrite IH by assumption. simpl.
+  assert (Nat.eqb id x = false) as -> by (apply Nat.eqb_neq; lia). reflexivity.
+Qed.
+
+Lemma dup_writes_invisible E offu offk fuel t E' t' :
+  (forall id id' d d', elookup id E = Some d -> elookup id' E = Some d' -> ut_id d = ut_id d' -> id = id') ->
+  (forall id d, elookup id E = Some d -> names_ok (ut_type d)) ->
+  names_ok t -> Dup E offu offk fuel t = Some (E', t') ->
+  (forall id d, elookup id E = Some d -> id < offu) ->
+  forall ws, Forall (fun w => offu <= fst w) ws ->
+  forall id d, elookup id E = Some d -> elookup id (apply_writes ws (E' ++ E)) = Some d.
+Proof.
+  intros H1 H2 Hn Hd Hlt ws Hws id d Hl.
+  rewrite (apply_writes_fresh ws (E' ++ E) offu id Hws (Hlt id d Hl)).
+  rewrite (elookup_app_fresh E E' offu id); [exact Hl| |exact (Hlt id d Hl)].
+  intros x dx Hin. destruct (dup_fresh_lemma E offu offk H1 H2 fuel t E' t' Hn Hd) as (_ & _ & Hc).
+  now destruct (Hc x dx Hin).
 Qed.
